@@ -13,9 +13,16 @@ package server
 // and have not ended. Per activation of handleConnection the net effect on it
 // is zero (the slot taken after the handshake is given back when the
 // connection ends, on every path), and nobody else gives slots back.
+// The number of connections served never exceeds MaxConnections — at any
+// moment outside the counter's critical sections, whatever other connection
+// goroutines do in between (they see and keep the same invariant). A limit
+// check at accept time cannot establish this: every handshake in flight has
+// passed it. The slot must be checked and taken under one lock.
+//@ type stats invariant [within-limit] self.currentConnections <= max(config.Server.MaxConnections, 0)
 //@ func (*stats).incrementConnections
 //@   assigns s.currentConnections, s.lifetimeConnections, s.mutex
-//@   ensures [plus-one] s.currentConnections == old(s.currentConnections) + 1
+//@   ensures [taken-iff-free] isnil(result) == (old(s.currentConnections) < config.Server.MaxConnections)
+//@   ensures [plus-one-when-taken] s.currentConnections == old(s.currentConnections) + ite(isnil(result), 1, 0)
 //@ func (*stats).decrementConnections
 //@   callers-only (*Server).handleConnection
 //@   assigns s.currentConnections, s.mutex
